@@ -8,8 +8,9 @@ TARGETS = ["NetqasmVerif.Props.C14"]
 M = "NetqasmVerif.Props.C14"
 THEOREMS = [(M, "NQ.C14." + n) for n in [
     "balanced", "flush_balanced", "newReg_takes_one", "sequence_compiles", "compiles_of_need",
-    "depth_bound", "long_run_compiles", "fresh_has_16", "temps_disjoint", "temps_disjoint_pick",
-    "f17_if_ez_40", "f17_loop_until_20", "need_tight_16"]]
+    "depth_bound", "long_run_compiles", "fresh_has_16", "temps_disjoint", "temps_disjoint_code", "temps_disjoint_pick",
+    "f17_if_ez_40", "f17_loop_until_20", "need_tight_16",
+    "explicit_register_protected", "explicit_register_in_use_rejected"]]
 TRANSLATORS = []
 LEVEL_TEXT = (
     "Lean theorems about an executable model of the SDK builder + memory manager (Model/Sdk.lean, `emit` mirrors "
@@ -19,7 +20,7 @@ LEVEL_TEXT = (
     "sequence of any length with flushes anywhere never raises 'could not find an available loop register' if each "
     "single operation does not (induction over the list); `compiles_of_need` + `depth_bound` — an operation of "
     "nesting depth k needs at most 1*k + (2 + future-index depth) registers, `long_run_compiles` combines them; "
-    "`temps_disjoint` — a temporary is taken from the inactive set and stays reserved. Tie: syntactic correspondence — "
+    "`temps_disjoint` — a temporary is taken from the inactive set and stays reserved; `temps_disjoint_code` — no EMITTED command of an operation writes an R register active at its start (live register of an enclosing operation) except the add of a RegFuture.add on its own handle. Tie: syntactic correspondence — "
     "random and adversarial host programs are run through the REAL SDK API; the proto-subroutine of every flush must "
     "equal the model's command for command and the MemoryManager snapshot (active registers, M registers, arrays/"
     "registers to return) must be equal after every top-level operation, including sequences of several hundred "
@@ -39,7 +40,8 @@ ASSUMPTIONS = [
     "generic hardware configuration (no NV qubit relocation), one measured qubit at a time (virtual id 0)",
     "a 'completed operation' is any statement of the host AST except builder.new_register(), which by design keeps "
     "its register (theorem newReg_takes_one: exactly one)",
-    "loop registers are chosen by the SDK (loop_register=None); a user-supplied register name is outside the model",
+    "an explicit loop register (loop / loop_body) is an R register R0..R15 given as str or Register; other banks "
+    "(C, and Q0 / M registers, which the SDK itself uses for qubit addresses and outcomes) are outside the model",
     "EPR create/recv operations are covered by the models of C09/C10, not by this one",
 ]
 
@@ -187,6 +189,44 @@ def run(ctx):
         if f:
             res.failures.append({"what": f["what"], "kf": None,
                                  "input": _shrink_leak(H, f) if len(res.failures) < 3 else f})
+    # -- stream D: end-to-end (shared with C05): a temporary must never sit in a live register of an enclosing
+    #    operation — nested operations, explicit loop registers (lowest free / any free), run on the real
+    #    Executor against the direct interpreter
+    nD = 1500 if ctx.thorough else 250
+    for _ in range(nD):
+        op = H.completed_op(rng, depth=rng.choice([2, 3, 4]))
+        prog = base + [op, {"k": "flush"}]
+        outs = [rng.randrange(2) for _ in range(64)]
+        res.evaluations += 1
+        st, det = H.oracle(prog, outs)
+        res.count("end-to-end:" + st)
+        if "\"r\":" in H.dumps(op):
+            res.count("explicit-loop-register")
+        if st == "fail":
+            small = prog
+            if sum(1 for x in res.failures if x["kf"] is None) < 3:
+                small = H.shrink(prog, lambda q: H.oracle(q, outs)[0] == "fail", 200, 20)
+                det = H.oracle(small, outs)[1]
+            res.failures.append({"what": "end-to-end result of a nested operation differs from its direct evaluation: "
+                                         + det[0]["what"], "kf": None,
+                                 "input": {"program": small, "outcomes": outs, "detail": det[:3]}})
+    # -- stream E: an explicit loop register that is in use must be rejected (never silently shared)
+    for r_in_use, outer in ((0, "loop"), (0, "reg"), (1, "nested")):
+        inner = {"k": "lbody", "s": 0, "e": 3, "d": 1, "r": r_in_use,
+                 "body": [{"k": "addf", "f": {"a": 0, "i": 0}, "o": {"v": 1}, "m": None}]}
+        if outer == "loop":
+            prog = base + [{"k": "loop", "s": 0, "e": 2, "d": 1, "body": [inner]}, {"k": "flush"}]
+        elif outer == "reg":
+            prog = base + [{"k": "reg", "v": 5}, inner, {"k": "flush"}]
+        else:
+            prog = base + [{"k": "loop", "s": 0, "e": 2, "d": 1, "body": [
+                {"k": "loop", "s": 0, "e": 2, "d": 1, "r": 1, "body": [dict(inner, k="loop")]}]}, {"k": "flush"}]
+        correspond(prog, "explicit-register-in-use")
+        r = H.RealRun(execute=False).run(prog)
+        res.evaluations += 1
+        if r.err is None or r.err[1] != "regState":
+            res.failures.append({"what": "an explicit loop register that is in use was not rejected by the SDK",
+                                 "kf": None, "input": {"program": prog, "real": r.err}})
     if len(res.samples) < 4:
         res.samples.append({"long_sequence_head": H.long_sequence(rng, 3, 2)})
     return res
